@@ -59,6 +59,10 @@ const histModes = "HENSGXC"
 // emitRequirer: generate cases with flag q (requirer = the link entries only; the final view is pruned by
 // removeUnnecessaryFileNodes). Off until the repair of the pruning loop is in /repo: on the unrepaired tree a required
 // symlink that another required symlink reaches first (map iteration order!) loses its own targets (fix-c17-cov/1.diff).
+// emitSymlinkWhiteout: generate entry kind W (a whiteout written as a symlink entry). Off until the repair is in /repo:
+// resolveSymlink follows such a node before anybody looks at isWhiteout (fix-imgb-j/2.diff).
+const emitSymlinkWhiteout = false
+
 const emitRequirer = true
 
 func hexs(s string) string { return hex.EncodeToString([]byte(s)) }
@@ -67,7 +71,7 @@ func (c tcase) line() string {
 	ts := make([]string, len(c.ents))
 	for i, e := range c.ents {
 		l := "-"
-		if e.kind == 'L' || e.kind == 'Y' || e.kind == 'H' {
+		if e.kind == 'L' || e.kind == 'Y' || e.kind == 'H' || e.kind == 'W' {
 			l = hexs(e.link)
 			if l == "" {
 				l = "-"
@@ -149,6 +153,11 @@ func run(c tcase) string {
 			case 'Y':
 				l0 = append(l0, tarEnt{e.name, tar.TypeSymlink, "", e.link})
 				l1 = append(l1, tarEnt{whName(e.name), tar.TypeReg, "", ""})
+			case 'W':
+				// a file deleted by layer 1 with a whiteout entry of TYPE symlink (whiteouts are normally empty regular
+				// files; the entry type must not matter)
+				l0 = append(l0, tarEnt{e.name, tar.TypeReg, "x", ""})
+				l1 = append(l1, tarEnt{whName(e.name), tar.TypeSymlink, "", e.link})
 			case 'Z':
 				// a directory with a child, deleted as a whole by layer 1 (the child is then hidden below a whiteout)
 				l0 = append(l0, tarEnt{e.name + "/", tar.TypeDir, "", ""}, tarEnt{e.name + "/c", tar.TypeReg, "x", ""})
@@ -657,8 +666,12 @@ func randCase(r *rand.Rand, dmax int) tcase {
 			e.kind = 'M'
 		case x < 40:
 			e.kind = 'X'
-		case x < 43:
+		case x < 42:
 			e.kind = 'Z'
+		case x < 43 && emitSymlinkWhiteout:
+			e.kind, e.link = 'W', "/"+names[r.Intn(len(names))]
+		case x < 43:
+			e.kind = 'X'
 		case x < 48:
 			e.kind, e.link = 'Y', randLink(r, nm, names)
 		case x < 57:
